@@ -254,6 +254,8 @@ def tabled_programs(tier, seed):
                 flat = T.expand([d], D)
             except KeyError:
                 continue
+            if 31011 in flat or 31012 in flat:
+                continue        # delayed repetition is refused as not implemented (at compile time even where a zero count hides it)
             key = (tuple(flat), tuple(B.get(x, ('?',))[1:] for x in flat if x // 100000 == 0))
             if key not in seen:
                 seen[key] = (v, d)
